@@ -13,6 +13,8 @@ import (
 func init() { register("C09", checkC09) }
 
 func checkC09(p *Prog, r *Report) {
+	r.rule("C09.check-complete: SoftResource.check, which every accessor runs first, cannot return before its zero-filling loops: the values Less and the filters fetch with Get are typed (shared with C17)")
+	checkSoftCheckComplete(p, r, "C09")
 	r.rule(r3RuleText)
 	r.rule("R1 switch coverage: sortedResources.Less has an arm for each of the 28 Go types of the kind table")
 	r.rule("C09.less-table (scenario evaluation of Less, per type x {a<b, a=b, a>b, nil patterns} x {ascending, descending}): with one attribute rule and the two values' comparisons decided by the scenario, Less returns (a<b) != descending when they differ, treats nil as smaller than any value, and on a tie moves on to the next rule and finally returns false (irreflexive); the id rule compares the two IDs as strings")
